@@ -145,7 +145,15 @@ package db
 // a few lines below, assigns the parameter only.) It does not write the local variables of its caller, and no
 // RevInfo node or RevTree map that existed before. Bucket, caches, statistics are not modelled.
 //@ func DatabaseCollectionWithUser.OnDemandImportForWrite
+//@   props C05 C09
 //@   trusted
+// check-calls: the frame above stays an assumption, but these call-site clauses are verified against the body.
+// (C09) an external DELETE found by the write path is imported as a tombstone (doc.Deleted is set by UnmarshalWithXattrs exactly
+// for a body-less document that still has its _sync xattr), in on-demand mode, on the document that was read
+//@   check-calls
+//@   only-contracts Body
+//@   before[delete-as-tombstone] call ImportDoc#1 $3 == doc && (doc.Deleted ==> $4.isDelete)
+//@   before[on-demand-mode]      call ImportDoc#1 $4.mode == ImportOnDemand
 //@   modifies doc.SyncData, doc._body, doc._rawBody
 //@   ensures[same-or-empty-tree] doc.History == old(doc.History) ||
 //@                               (doc.History != nil && !old(allocated(now(doc.History))) && (forall k string :: {k in doc.History} !(k in doc.History)))
